@@ -2,14 +2,10 @@
    set_operation_mode(m, power, soc) get_operation_mode() returns m; for the emulated ECO_CHARGE / ECO_DISCHARGE the first eco-mode group
    decodes to the requested power / SoC.  Step lists, register numbers and enum values are GENERATED from the current source (Gen/ModesGen.v). *)
 From Coq Require Import ZArith List Bool String Lia.
-From GW Require Import Prelude PyStr PyFloat Sensors SensorProofs CodecProofs Settings TablesGen SettingsGen SettingsProofs Modes ModesGen.
+From GW Require Import Prelude PyStr PyFloat Sensors SensorProofs CodecProofs Settings TablesGen SettingsGen SettingsProofs SchedDef SharedGen Modes ModesGen ModesInst.
 Import ListNotations.
 Open Scope Z_scope.
 
-(* the settings dictionary of an ET with ARM firmware >= 22: later updates win *)
-Definition et_settings : list sensor := ET_settings_arm_fw_22 ++ ET_settings_arm_fw_19 ++ ET_all_settings.
-
-Definition ctx (is745 : bool) (prev p soc : Z) : mctx := mkCtx et_settings et_ws is745 prev p soc om_offline om_clear.
 
 Definition simple (m : mode) : bool := match m with MGeneral | MOffGrid | MBackup | MPeakShaving | MSelfUse => true | _ => false end.
 
